@@ -56,8 +56,6 @@ type childState struct {
 }
 
 func (c *childState) fact(i int) isaac.DummyOperationFact {
-	f := isaac.NewDummyOperationFact(util.UUID().Bytes()[:0], nil)
-	_ = f
 	tok := []byte(fmt.Sprintf("verif-c22-fact-%06d", i))
 	fact := isaac.NewDummyOperationFact(tok, util.BytesToByter(tok))
 	c.factidx[fact.Hash().String()] = i
@@ -484,7 +482,7 @@ func main() {
 		res.Count(k, nt)
 	}
 	rd := vh.NewRand(o.Seed)
-	n := o.Pick(1000, 30000)
+	n := o.Pick(500, 30000)
 	for i := 0; i < n; i++ {
 		h := genHistory(rd, res)
 		nt := d.runHistory(h, "generated", cases)
